@@ -118,12 +118,13 @@ inductive Step
 /-- the `if !cur_layer.properties.has_alpha_channel { … }` block of the Normal arm -/
 def opaqueTail (hb : Cell → Nat × Nat) (st : St) : Cell :=
   let res := merge (defaultCell.withPage st.dflt) st.chOpt st.attrOpt
-  if st.chOpt.isSome || st.attrOpt.isSome then
-    -- transparent_char = Some(res); res = AttributedChar::default();
-    makeSolid hb res defaultCell
-  else match st.transp with
-    | some t => makeSolid hb t res
-    | none => res
+  -- if ch_opt.is_some() || attr_opt.is_some() { res = self.make_solid_color(res, AttributedChar::default()); }
+  -- (before the C13 repair this block OVERWROTE `transparent_char` with `res`: a transparent-colour cell remembered
+  --  from a higher layer vanished — see known_findings.txt, key topmost_first:opaque_branch_overwrites_transparent_char)
+  let res := if st.chOpt.isSome || st.attrOpt.isSome then makeSolid hb res defaultCell else res
+  match st.transp with
+  | some t => makeSolid hb t res
+  | none => res
 
 /-- body of the loop for one layer that is visible and covers the position; `x y` are layer coordinates,
     `st.dflt` has already been set to the layer's default font page -/
